@@ -86,6 +86,32 @@ Theorem C10_tie_CellBytes : forall ffmt tz jsonp fuel d pos typ meta uns,
 Proof. exact CellBytes_tie_numeric. Qed.
 Print Assumptions C10_tie_CellBytes.
 
+(* From the Go source to the specification.  The translated Go function itself, applied to any row buffer that holds
+   the encoding of a well-formed value of a well-formed column type of this property (anything before and after it),
+   returns the canonical text of the value and the number of bytes the encoding occupies: C10_tie_CellBytes (generated
+   code = model, all inputs) composed with the cell theorems above (model on the encoder's output = specification text).
+   The hand-written model no longer occurs in the statement: it is about the translation of /repo's CellBytes, the
+   specification encoder enc_cell and the specification text only.  Premises: the buffer holds bytes, |tz| <= 86400,
+   the JSON oracle is the proved printer for JSON columns (jsonp_for), fuel >= 1000. *)
+From GB Require Import Spec.ColTypes Proofs.CellAll Proofs.SourceCells.
+Theorem C10_source_decodes : forall ffmt tz efmt jsonp fuel ty uns v pre rest,
+  In (code_of ty) [1; 2; 9; 3; 8; 13; 4; 5; 16; 247; 248; 254] -> (forall i : Z, -86400 <= tz i <= 86400) ->
+  jsonp_for efmt jsonp ty -> wf_type ty = true -> wf_value ty uns v = true -> (1000 <= fuel)%nat ->
+  wf_bytes (pre ++ enc_cell ty v ++ rest) -> Z.of_nat (length pre) < 2 ^ 62 ->
+  CellBytes_g ffmt (print_timestamp tz) jsonp fuel (pre ++ enc_cell ty v ++ rest) (Z.of_nat (length pre)) (code_of ty) (meta_of ty) uns
+    = Ok (text ffmt tz efmt ty uns v, len (enc_cell ty v)).
+Proof.
+  exact (fun ffmt tz efmt jsonp fuel ty uns v pre rest H =>
+           CellBytes_decodes_encoded_on ffmt tz efmt jsonp _ fuel ty uns v pre rest (CellBytes_tie_numeric ffmt tz jsonp) H).
+Qed.
+Print Assumptions C10_source_decodes.
+Example C10_source_nonvacuous :
+  CellBytes_g (fun _ _ => []) (fun _ => []) (fun _ => Err EJson) 1000 [7; 0; 0; 128; 9] 1 9 0 false = Ok ([45; 56; 51; 56; 56; 54; 48; 56], 3) /\
+  CellBytes_g (fun _ _ => []) (fun _ => []) (fun _ => Err EJson) 1000 [255; 255; 255; 255; 255; 255; 255; 255] 0 8 0 true
+    = Ok ([49; 56; 52; 52; 54; 55; 52; 52; 48; 55; 51; 55; 48; 57; 53; 53; 49; 54; 49; 53], 8).
+Proof. split; vm_compute; reflexivity. Qed.
+
+
 (* ---------------------------------------------------------------------------------------------------------------
    Source pins.  The model functions used above are a hand-written reading of these Go functions (they have closures,
    channels, interfaces or maps, which the translator gotrans does not accept).  gosync regenerates their normalised
